@@ -88,6 +88,18 @@ class _Req:
         self.body = body
 
 
+def scaled_adjuster(utils, mn, mx, mp):
+    """ChunksizeAdjuster() is built with its defaults inside _submit: scale them."""
+    class Patch:
+        def __enter__(self):
+            self.old = utils.ChunksizeAdjuster.__init__.__defaults__
+            utils.ChunksizeAdjuster.__init__.__defaults__ = (mx, mn, mp)
+
+        def __exit__(self, *a):
+            utils.ChunksizeAdjuster.__init__.__defaults__ = self.old
+    return Patch()
+
+
 class ScaledAggregator:
     """AggregatedProgressCallback is built with its default threshold inside
     the input managers: scale the default."""
@@ -829,7 +841,6 @@ def run_e2e(case, tmpdir, want_bodies=False):
     """Run one transfer.  Returns dict(ok, vals, size, bodies, exc)."""
     import random
     from harness.fakes3 import FakeS3, NonSeekableReader, NonSeekableWriter
-    from harness.props.c14 import scaled_adjuster
     from s3transfer.manager import TransferManager, TransferConfig
     from s3transfer.futures import NonThreadedExecutor
     from s3transfer import utils
@@ -1108,7 +1119,6 @@ def check_botocore(ctx, tmpdir):
     from s3transfer.futures import NonThreadedExecutor
     from s3transfer import utils
     from harness.fakes3 import NonSeekableReader
-    from harness.props.c14 import scaled_adjuster
     rng = ctx.rng('botocore')
     session = botocore.session.get_session()
     script = {}
